@@ -665,6 +665,84 @@ static void sc_io(const Case &c) {
     }
 }
 
+// Bursts of simultaneous requests: the object pools behind network_read/network_write cookies (cache of 16) and event records grow their
+// cache stacks while objects are being RELEASED, i.e. inside operations which cannot report failure.
+static void sc_pool(const Case &c) {
+  K().reset();
+  std::vector<int> fds;
+  static uint8_t rbuf[16], wbuf[16];
+  int bursts = 0;
+  for (auto &op : c) {
+    if (!VV->ok) break;
+    if (op.k != "burst" || bursts >= 4) continue;
+    bursts++;
+    auto A = [&](size_t i) -> int64_t { return i < op.a.size() ? op.a[i] : 0; };
+    size_t n = (size_t)std::min<int64_t>(std::max<int64_t>(A(0), 1), 70);
+    int kind = (int)(A(1) & 1);      // 0 reads, 1 writes
+    int how = (int)((A(1) >> 1) & 1);  // 0 cancel all, 1 complete all through the loop
+    bool reverse = (A(1) >> 2) & 1;
+    while (fds.size() < n) {
+      int fd = K().create();
+      K().get(fd)->conn = 2;
+      fds.push_back(fd);
+    }
+    std::vector<std::unique_ptr<IoReq>> reqs;
+    for (size_t i = 0; i < n && VV->ok; i++) {
+      std::unique_ptr<IoReq> r(new IoReq);
+      r->kind = kind;
+      OpScope sc;
+      if (kind == 0) {
+        if (how == 1) {
+          InItem d;
+          d.t = IN_DATA;
+          d.data = "x";
+          d.delay = 100;
+          K().push_in(fds[i], d);
+        }
+        r->cookie = s_network_read(fds[i], rbuf, sizeof rbuf, 1, io_cb, r.get());
+      } else {
+        OutItem o1;
+        o1.t = how == 1 ? OUT_ACCEPT : OUT_EAGAIN;
+        o1.n = sizeof wbuf;
+        K().push_out(fds[i], o1);
+        r->cookie = s_network_write(fds[i], wbuf, sizeof wbuf, sizeof wbuf, io_cb, r.get());
+      }
+      if (!r->cookie) {
+        MUST_BE_INJECTED(sc, "network_read/network_write request");
+        r->refused = true;
+      }
+      reqs.push_back(std::move(r));
+    }
+    if (how == 1 && VV->ok) {
+      for (int i = 0; i < 300; i++) {
+        bool pend = false;
+        for (auto &r : reqs)
+          if (!r->refused && !r->done) pend = true;
+        if (!pend) break;
+        OpScope sc;
+        K().stuck = false;
+        int rc = s_events_run();
+        if (rc != 0) MUST_BE_INJECTED(sc, "events_run");
+        if (K().stuck || aw::S().persistent) break;
+      }
+      if (!aw::S().persistent)
+        for (auto &r : reqs)
+          if (!r->refused && !r->done && VV->ok)
+            VV->fail("request-abandoned", "a request in a burst was accepted, its descriptor is ready, the allocator has recovered, but it was never called back");
+    }
+    for (size_t j = 0; j < reqs.size(); j++) {
+      auto &r = reqs[reverse ? reqs.size() - 1 - j : j];
+      if (r->refused || r->done) continue;
+      OpScope sc;  // releasing cannot fail, whatever the allocator does
+      if (kind == 0)
+        s_network_read_cancel(r->cookie);
+      else
+        s_network_write_cancel(r->cookie);
+      r->done = true;
+    }
+  }
+}
+
 static int nb_status = -9, nb_cbs = 0, nb_fail = 0;
 static int nb_cb(void *, int st) {
   nb_status = st;
@@ -1021,7 +1099,7 @@ static Outcome run_enum(const Case &c, Scenario sc, const char *name) {
   o.counters["alloc_calls_unfaulted"] = (uint64_t)N;
   uint64_t h0 = fnv(to_text(c));
   std::vector<long> ks;
-  if (N <= 150)
+  if (N <= 400)
     for (long k = 1; k <= N; k++) ks.push_back(k);
   else {
     for (long k = 1; k <= 60; k++) ks.push_back(k);
@@ -1074,7 +1152,7 @@ int main(int argc, char **argv) {
     s.name = name;
     s.rule = std::string(rule) +
              " Every base case is run un-faulted (N = allocation calls made by library code), then for every k in 1..N with the k-th call failing once and "
-             "with every call from the k-th on failing (k subsampled above 150); evaluations = faulted runs. Oracle per run: no crash/sanitizer report; a "
+             "with every call from the k-th on failing (k subsampled above 400); evaluations = faulted runs. Oracle per run: no crash/sanitizer report; a "
              "failing operation must coincide with an injected failure; containers equal their model after every operation; a refused registration/request "
              "never calls back and an identical one succeeds once the allocator recovers; cancels/deletes/frees never fail; at exit (after the library's atexit "
              "handlers) no library allocation is left. Non-trivial: (case, k) where the failed allocation was not the first allocation of its operation "
@@ -1095,6 +1173,25 @@ int main(int argc, char **argv) {
      [](int) { return gen_ops({{6, "reg"}, {2, "cancel"}, {1, "reset"}, {3, "run"}}, 16, 3000); }, sc_events);
   mk("io", "network_read/write/accept/connect requests, cancels and events_run on the simulated kernel.",
      [](int) { return gen_ops({{5, "io"}, {1, "cancel"}, {4, "run"}}, 14, 7); }, sc_io);
+  mk("pool",
+     "1..4 bursts of n simultaneous network_read or network_write requests on n descriptors (n around the object-pool cache sizes 16/32/64), each burst "
+     "either cancelled or completed through the loop, in either order: the pools grow their cache stacks while objects are released.",
+     [](int) {
+       return rc::gen::exec([]() {
+         Case c;
+         int nb = *range<int>(1, 4);
+         bool samekind = *range<int>(0, 3) != 0;
+         int kind = *range<int>(0, 1);
+         for (int i = 0; i < nb; i++) {
+           int64_t n = *rc::gen::elementOf(std::vector<int64_t>{3, 16, 17, 18, 20, 32, 33, 34, 40, 65, 66});
+           int64_t fl = *range<int>(0, 7);
+           if (samekind) fl = (fl & ~1) | kind;
+           c.push_back(Op("burst", {n, fl}));
+         }
+         return c;
+       });
+     },
+     sc_pool);
   mk("netbuf", "buffered reader/writer init, wait (incl. buffer growth), write (incl. > 4096) and events_run; a reader/writer whose call failed is only released.",
      [](int) { return gen_ops({{2, "rinit"}, {3, "wait"}, {2, "winit"}, {3, "write"}, {4, "run"}}, 16, 9000); }, sc_netbuf);
   mk("addr", "sock_resolve of IPv4/IPv6/Unix literals, sock_addr_dup/serialize/deserialize/prettyprint (asprintf) and humansize (asprintf).",
